@@ -1,6 +1,6 @@
 """C11 - ill-formed evaluations are rejected before anything runs, whatever the order (engine P)."""
 from ..core.util import new_scratch, rmtree
-from ..pipe import gen, hist, twin
+from ..pipe import gen, hist, twin, ir
 from ..pipe.world import World
 from . import c01
 
@@ -24,7 +24,7 @@ RULE = (
 )
 COMPONENTS = c01.COMPONENTS
 ASSUMPTIONS = c01.ASSUMPTIONS
-PROBES = ["late_accept", "overlap", "overlap_separated", "overlap_long_first", "cycle", "cycle_len>=3", "cycle_through_keep_or_ho",
+PROBES = ["late_accept", "overlap_top", "overlap", "overlap_separated", "overlap_long_first", "cycle", "cycle_len>=3", "cycle_through_keep_or_ho",
           "cycle_through_method",
           "evalineval", "evalineval_nested", "ill_on_populated_store", "twin_ops_compared"]
 
@@ -44,7 +44,25 @@ def gen_case(streams, tier, avoid):
     f = streams.get("faults")
     nill = f.choice([1, 1, 2, 3])
     for t in range(nill):
-        kind = f.choice(["overlap", "overlap", "cycle", "cycle", "evalineval"])
+        kind = f.choice(["overlap", "overlap", "cycle", "cycle", "evalineval", "overlap_top"])
+        if kind == "overlap_top":
+            # a well-formed function that keeps an inner path is first kept by the driver under an unrelated path
+            # (accepted, stored), then under a path that is a strict prefix / extension of its inner path
+            prog = case["prog"]
+            mod = f.choice(prog["mods"])
+            gn, ln = f"b{t}t", f"b{t}l"
+            gen._ill_fn(prog, ln, mod, "target", params=[["a", ir.NODEFAULT]])
+            g = gen._ill_fn(prog, gn, mod, "plain")
+            inner = f"/ot{t}/x/y"
+            g["body"].append({"t": "keep", "path": inner, "f": ln, "args": [{"k": "lit", "v": 1}]})
+            bad = f.choice([f"/ot{t}/x", f"/ot{t}", inner + "/v2"])
+            pos = f.randrange(0, len(case["ops"]) + 1)
+            case["ops"].insert(pos, {"op": "illeval", "entry": gn, "style": "keep", "path": f"/ok{t}/top", "expect": None,
+                                     "kind": kind})
+            extra = [{"op": "restart"}] if f.random() < 0.4 else []
+            case["ops"][pos + 1:pos + 1] = extra + [{"op": "illeval", "entry": gn, "style": "keep", "path": bad,
+                                                     "expect": "OVERLAPPING_PATH", "kind": kind}]
+            continue
         entry, expect = gen.add_ill(case["prog"], f, kind, t, avoid=[a.lstrip("!") for a in avoid]
                                     if f.random() >= 0.06 else [])
         pos = f.randrange(0, len(case["ops"]) + 1)
@@ -131,6 +149,12 @@ def run_case(case):
                 if len(cyc) == 1 and any(it["t"] == "ho" for it in prog["funcs"][cyc[0]]["body"]):
                     xt.append("cycle:self-ho")
             r = o["res"]
+            if o["expect"] is None:
+                # the well-formed first keep of the overlap_top family: must simply succeed
+                if r[0] != "ok":
+                    w.violate("C11.code", f"op {o['i']} well-formed keep of {o['entry']} at {o.get('path')}: raised {str(r)[:300]}",
+                              kind=kind, xtags=xt)
+                continue
             if r[0] != "exc" or r[1] != "DDSException" or r[2] != o["expect"]:
                 w.violate("C11.code", f"op {o['i']} ill-formed ({kind}) evaluation of {o['entry']} ({o['style']}): "
                                       f"expected DDSException {o['expect']}, got {str(r)[:300]}", kind=kind, xtags=xt)
@@ -140,11 +164,11 @@ def run_case(case):
             if o["nstore_calls"] or o["nsync_calls"] or o["snap_after"] != o["snap_before"]:
                 w.violate("C11.untouched", f"op {o['i']} ill-formed ({kind}) evaluation of {o['entry']}: store changed "
                                            f"(store_blob calls {o['nstore_calls']}, sync_paths calls {o['nsync_calls']})", kind=kind)
-        if ills:
-            tcase = twin.twin_of(case, lambda op: op["op"] == "illeval")
+        if any(o["expect"] is not None for o in ills):
+            tcase = twin.twin_of(case, lambda op: op["op"] == "illeval" and op.get("expect") is not None)
             w2 = World(tcase, root2)
             w2.run()
-            n = twin.compare_after(w, w2, min(o["i"] for o in ills), "C11.twin", w.violate, subset_logs=False)
+            n = twin.compare_after(w, w2, min(o["i"] for o in ills if o["expect"] is not None), "C11.twin", w.violate, subset_logs=False)
             probes["twin_ops_compared"] = n
         w.probes = probes
         res = c01.finish(w, ORACLES)
